@@ -682,7 +682,8 @@ def engine_for(pid):
 NOT_APPLICABLE = {}
 
 _T = ("Lean 4 proof over an executable model whose data layer (SQL statements), websocket layer (onMessage + handlers), Mailbox/AppNamespace "
-      "method bodies (open, close, add_message, claim, release, open_mailbox), usage summaries and sweep timer "
+      "/Server method bodies (open, close, add/get_messages, claim/release/allocate, open_mailbox, usage writers, prune_all_apps, dump_stats), "
+      "usage summaries and sweep timer "
       "are proved equal to translations regenerated from the source on every run + differential correspondence model<->code + property "
       "oracle on implementation traces")
 NOTES = {pid: {"technique": _T, "text": "", "note": ""} for pid in PROPS}
@@ -698,10 +699,11 @@ def _n(pid, text, note, technique=None):
 _TIE = ("Trusted: Lean kernel (axioms of every listed theorem checked to be within propext/Classical.choice/Quot.sound; thorough tier re-checks "
         "the modules with leanchecker), the translators (translate.py: constants, allocation ranges, schema scripts; translate_sql.py: the 49 "
         "SQL statements of server.py; translate_ws.py / translate_wsbody.py: onMessage and all handle_* of server_websocket.py; "
-        "translate_summ.py: the two usage-summary functions; translate_tap.py: expire()/TimerService; translate_srv.py: the bodies of "
-        "Mailbox.open/_touch/_add_message/close and AppNamespace._add_mailbox/open_mailbox/claim_nameplate/release_nameplate) with the "
+        "translate_summ.py: the two usage-summary functions; translate_tap.py: expire()/TimerService; translate_srv.py: the bodies of twenty "
+        "methods of Mailbox/AppNamespace/Server - everything the websocket handlers and the sweep call except AppNamespace.prune and "
+        "the search loop of _find_available_nameplate_id) with the "
         "semantics Lean gives their output (Sql.lean, WsGuards.lean, PyWs.lean, PySum.lean, PyTap.lean, PySrv.lean) - for those parts the model is PROVED equal to the translation of the current source on every run (Tie/*.lean, "
-        "e.g. onMessage_eq_reach); the rest of the hand-written model (prune, allocate's search loop, get_messages/listeners, log_client_version, dump_stats, database.py) is tied "
+        "e.g. onMessage_eq_reach); the rest of the hand-written model (AppNamespace.prune, allocate's search loop, the registries of objects/listeners, onOpen/onClose, database.py) is tied "
         "to the code by differential execution on generated histories every run, not proved; impl.py runner; SQLite/CPython/Twisted/Autobahn "
         "modelled, not verified. Environment assumptions are exactly the fields of GSys.WFOp (fresh connection ids, monotone time, fresh "
         "generated mailbox ids).")
